@@ -421,16 +421,19 @@ def _parse_iso8601_duration(text: str, **options: str) -> Duration | None:
             else:
                 seconds += int(_seconds)
 
-    return Duration(
-        years=years,
-        months=months,
-        weeks=weeks,
-        days=days,
-        hours=hours,
-        minutes=minutes,
-        seconds=seconds,
-        microseconds=microseconds,
-    )
+    try:
+        return Duration(
+            years=years,
+            months=months,
+            weeks=weeks,
+            days=days,
+            hours=hours,
+            minutes=minutes,
+            seconds=seconds,
+            microseconds=microseconds,
+        )
+    except OverflowError:
+        raise ParserError("Duration is too large")
 
 
 def _get_iso_8601_week(
